@@ -19,6 +19,21 @@ One case = one tiny 4D-STEM experiment.  The harness
      the batch-fraction weighted sum of the batch losses equals the full-scan loss;
      for l2 losses the autograd gradient at the truth is <= 1e-3 of the gradient at the perturbed point.
 
+Input classes generated on purpose (each is reached many times per quick run):
+  * scan points EXACTLY half-way between two object pixels (scan step k + 0.5 px with a power-of-two
+    pixel size, so that the library's float32 positions are the same numbers), with even and odd lower
+    neighbours, and exactly integer positions.  Which of the two nearest pixels is the window origin is
+    a convention; the reference simulates each consistent rule (half-to-even / up / down) in turn and the
+    truth loss has to vanish for one of them (the finite probe window makes the rules differ by a few
+    percent, so a library that rounds the window origin and the sub-pixel shift differently matches none).
+  * probe modes installed through the public setter in arbitrary order (the incoherent sum is
+    permutation invariant; the reference keeps them strongest-first).
+  * "reconstruct_history" cases: after the direct evaluation, a fresh Ptychography object at the ground
+    truth goes through 2-3 public reconstruct() calls (1-2 iterations each, independently drawn loss
+    types, reset=False continuation or reset=True) with nothing to optimise (no optimiser in descan mode
+    A, the dataset optimiser with lr = 0 in mode B), and every entry of iter_losses must meet the truth
+    bound of the loss type of the call that produced it.
+
 Every array is a pure function of the JSON case (see vq/gen/c02_build.py)."""
 
 from __future__ import annotations
@@ -565,10 +580,10 @@ def check(ctx, case):
 
 
 def search(ctx):
-    # quick: 4 workers x 220 cases (~35-90 s wall depending on the load of the shared machine, 0.07-0.25 s per case);
+    # quick: 4 workers x 280 cases (~45-100 s wall depending on the load of the shared machine, 0.1-0.3 s per case);
     # thorough: 16 workers x 3000.  No shrink phase: a failing case is already a small JSON description.
     odd_open = _open(ctx, KEY_ODD)
-    n = ctx.n(220, 3000)
+    n = ctx.n(280, 3000)
     core.run_given(ctx, "c02", cases(even_only=False), lambda c: check(ctx, c), n, shrink=False)
     if odd_open:
         ctx.extra["note"] = "odd ROI with no_shift skipped (open finding %s)" % KEY_ODD
